@@ -215,3 +215,29 @@ def shrink_worker(args):
         return coll.last_target_case
     except BaseException:
         return None
+
+
+class CaseTimeout(BaseException):
+    """raised by time_limit; a case that hits it is *inconclusive*, never a violation"""
+
+
+class time_limit:
+    """wall-clock safety net around one call (main thread of a worker process only)"""
+
+    def __init__(self, seconds):
+        self.seconds = seconds
+
+    def _handler(self, signum, frame):
+        raise CaseTimeout()
+
+    def __enter__(self):
+        import signal
+        self._old = signal.signal(signal.SIGALRM, self._handler)
+        signal.setitimer(signal.ITIMER_REAL, self.seconds)
+        return self
+
+    def __exit__(self, et, ev, tb):
+        import signal
+        signal.setitimer(signal.ITIMER_REAL, 0)
+        signal.signal(signal.SIGALRM, self._old)
+        return False
